@@ -15,8 +15,10 @@
 package c16
 
 import (
+	"encoding/json"
 	"fmt"
 	"io"
+	"reflect"
 	"runtime"
 	"runtime/debug"
 	"sort"
@@ -146,6 +148,21 @@ func projSvc(s *structs.NodeService) string {
 		p.TA[k] = fmt.Sprintf("%s:%d", v.Address, v.Port)
 	}
 	return core.JSON(p)
+}
+
+// diffSvcProj names the first projected field in which two service projections differ.
+func diffSvcProj(a, b string) string {
+	var ma, mb map[string]any
+	if json.Unmarshal([]byte(a), &ma) != nil || json.Unmarshal([]byte(b), &mb) != nil {
+		return "unknown"
+	}
+	for _, f := range [][2]string{{"Tags", "tags"}, {"ETO", "enable-tag-override"}, {"Name", "name"}, {"Addr", "address"}, {"Port", "port"}, {"Meta", "meta"},
+		{"Pass", "weights"}, {"Warn", "weights"}, {"Native", "connect-native"}, {"Kind", "kind"}, {"TA", "tagged-addresses"}, {"ID", "id"}} {
+		if !reflect.DeepEqual(ma[f[0]], mb[f[0]]) {
+			return f[1]
+		}
+	}
+	return "unknown"
 }
 
 type chkProj struct {
@@ -598,29 +615,52 @@ func (w *world) doDrift(s step) {
 		if !ok {
 			def = universeSvc(d.ID)
 		}
-		switch d.Field {
-		case "name":
-			def.Name += "-x"
-		case "tags":
-			def.Tags = append(append([]string(nil), def.Tags...), "drift")
-		case "tags-cleared":
-			def.Tags = nil
-		case "address":
-			def.Addr = "10.9.9.9"
-		case "port":
-			def.Port += 1000
-		case "meta":
-			def.Meta = map[string]string{"drift": "yes"}
-		case "weights":
-			def.Warn += 5
-		case "eto":
-			def.ETO = !def.ETO
-		case "tagged-address":
-			def.TAddr = "172.16.0.1"
-		case "connect-native":
-			def.Native = !def.Native
-		default:
-			panic("drift field " + d.Field)
+		for _, f := range strings.Split(d.Field, "+") {
+			switch f {
+			case "name":
+				def.Name += "-x"
+			case "tags":
+				def.Tags = append(append([]string(nil), def.Tags...), "drift")
+			case "tags-replaced":
+				def.Tags = []string{"other", "drift"}
+			case "tags-cleared":
+				def.Tags = nil
+			case "address":
+				def.Addr = "10.9.9.9"
+			case "port":
+				def.Port += 1000
+			case "meta":
+				def.Meta = map[string]string{"drift": "yes"}
+			case "weights":
+				def.Warn += 5
+			case "eto":
+				// the catalog's copy of the flag is flipped relative to the agent's own registration
+				def.ETO = !def.ETO
+				w.run.Count("drift:enable-tag-override-flag")
+				if ok {
+					if def.ETO {
+						w.run.Count("drift:enable-tag-override-flag:local-false-catalog-true")
+					} else {
+						w.run.Count("drift:enable-tag-override-flag:local-true-catalog-false")
+					}
+				}
+			case "tagged-address":
+				def.TAddr = "172.16.0.1"
+			case "connect-native":
+				def.Native = !def.Native
+			default:
+				panic("drift field " + d.Field)
+			}
+		}
+		if strings.HasPrefix(d.Field, "eto+tags") {
+			w.run.Count("drift:flag+tags")
+			if ok && v.Svcs[d.ID] != nil {
+				if def.ETO {
+					w.run.Count("drift:flag+tags:on-synced-service:local-false-catalog-true")
+				} else {
+					w.run.Count("drift:flag+tags:on-synced-service:local-true-catalog-false")
+				}
+			}
 		}
 		must(w.cat.put(&structs.RegisterRequest{Service: def.ns()}))
 	case "chk-alter":
@@ -685,6 +725,13 @@ func (w *world) doSync(s step, faults []faultSpec, phase string) {
 	fired0 := w.firedTotal
 	var err error
 	var pan *panicInfo
+	// the agent's own registrations as it lists them before the attempt
+	preS := map[string]string{}
+	for sid, ls := range w.st.AllServices() {
+		if _, ok := w.wantS[sid.ID]; ok {
+			preS[sid.ID] = projSvc(ls)
+		}
+	}
 	if s.Full {
 		err, pan = safely(w.st.SyncFull)
 	} else {
@@ -708,6 +755,22 @@ func (w *world) doSync(s step, faults []faultSpec, phase string) {
 		w.violation("C16:panic:sync-"+kind+":"+pan.site+":"+w.ctx(w.curFaults), fmt.Sprintf("%s sync panicked: %s\n%s", kind, pan.val, pan.stack))
 		w.dead = true
 		return
+	}
+	// a sync attempt (of any kind, with any outcome) never rewrites what was registered with the agent;
+	// only the tags of a service the AGENT registered with EnableTagOverride and consul-prefixed tagged
+	// addresses are server-owned, and both are outside the projection
+	postS := w.st.AllServices()
+	for _, id := range keys(preS) {
+		ls := postS[structs.NewServiceID(id, nil)]
+		if ls == nil || w.tainted["s:"+id] {
+			continue
+		}
+		w.run.Count("local_registration_unchanged_by_sync_checks")
+		if now := projSvc(ls); now != preS[id] {
+			w.tainted["s:"+id] = true
+			w.violation("C16:convergence:local-registration-changed-by-sync:"+diffSvcProj(preS[id], now),
+				fmt.Sprintf("the agent's own registration of service %q was rewritten by a %s sync attempt: before %s, after %s (registered: %s)", id, kind, preS[id], now, projSvc(w.wantS[id].ns())))
+		}
 	}
 	faultFree := w.firedTotal == fired0
 	if !faultFree {
@@ -1051,7 +1114,7 @@ var svcUniverse = []svcDef{
 	{ID: "web", Name: "web", Tags: []string{"v1"}, Port: 8080, Pass: 1, Warn: 1},
 	{ID: "web-1", Name: "web", Tags: []string{"v1", "canary"}, Port: 8081, Pass: 2, Warn: 1, ETO: true},
 	{ID: "db", Name: "db", Port: 5432, Pass: 1, Warn: 1, Native: true, Meta: map[string]string{"role": "primary"}, Token: "tokA"},
-	{ID: "api", Name: "api.v1", Addr: "10.1.1.1", Port: 443, Pass: 1, Warn: 0, TAddr: "192.168.0.9"},
+	{ID: "api", Name: "api.v1", Tags: []string{"edge"}, Addr: "10.1.1.1", Port: 443, Pass: 1, Warn: 0, TAddr: "192.168.0.9", ETO: true},
 }
 
 func universeSvc(id string) svcDef {
@@ -1091,7 +1154,8 @@ func universeChk(id string) chkDef {
 	return chkDef{ID: id, Name: id, Status: api.HealthPassing}
 }
 
-var svcDriftFields = []string{"name", "tags", "tags-cleared", "address", "port", "meta", "weights", "eto", "tagged-address", "connect-native"}
+var svcDriftFields = []string{"name", "tags", "tags-cleared", "address", "port", "meta", "weights", "eto", "tagged-address", "connect-native",
+	"eto+tags", "eto+tags-replaced", "eto+tags+port", "eto+tags-cleared+meta", "eto+tags-replaced+port+meta"}
 var chkDriftFields = []string{"name", "status", "output", "notes", "definition", "service-binding"}
 
 type gen struct {
@@ -1470,9 +1534,30 @@ func caseVariantScenarios() []*scenario {
 	}
 }
 
+// tag-override scenarios: the catalog's copy of EnableTagOverride is flipped behind the agent's back,
+// alone and together with tags (and port / meta), for a service registered with and without the flag.
+func tagOverrideScenarios() []*scenario {
+	var out []*scenario
+	for _, eto := range []bool{false, true} {
+		for _, field := range []string{"eto", "eto+tags", "eto+tags-replaced", "eto+tags+port", "eto+tags-cleared+meta", "tags"} {
+			for _, wire := range []bool{false, true} {
+				d := svcDef{ID: "web", Name: "web", Tags: []string{"v1", "blue"}, Port: 8080, Pass: 1, Warn: 1, ETO: eto}
+				o := svcDef{ID: "db", Name: "db", Tags: []string{"primary"}, Port: 5432, Pass: 1, Warn: 1, ETO: !eto}
+				out = append(out, &scenario{Name: fmt.Sprintf("tag-override-local-%v-drift-%s-wire-%v", eto, field, wire), Interval: "0", Leader: true, Wire: wire,
+					Pre: []step{{Op: "add-svc", Svc: &d, Chks: svcChecks(d)[:1]}, {Op: "add-svc", Svc: &o}, {Op: "sync", Full: true},
+						{Op: "drift", Drift: &driftOp{Kind: "svc-alter", ID: "web", Field: field}},
+						{Op: "drift", Drift: &driftOp{Kind: "svc-alter", ID: "db", Field: field}}},
+					T:    step{Op: "sync", Full: true},
+					Post: []step{{Op: "drift", Drift: &driftOp{Kind: "svc-alter", ID: "web", Field: field}}, {Op: "sync", Full: true}}})
+			}
+		}
+	}
+	return out
+}
+
 func TestZZVerifC16(t *testing.T) {
 	run := core.NewRun("C16", "fault_enumeration",
-		"scenarios = PRNG-built sequences of agent-local operations (add/re-add/update/remove service with its checks, add/re-add/remove check, check status change and output churn with CheckUpdateInterval 0 | 1h (deferral) | 2ms (timer fires)), external catalog drift (foreign service/check added, entries removed, each IsSame-compared field altered, node meta / tagged addresses changed) and full/partial syncs, executed on the real agent/local.State against a real state.Store behind the RPCs the agent uses. For each scenario the RPCs of its fault-free target sync are recorded and EVERY call position x 6 failure kinds is replayed from scratch (with and without an immediate partial retry, and as a failure persisting into the following syncs), plus the fallback-read position, plus double faults (quick: 16 sampled position/kind pairs per scenario; thorough: all position pairs x 4x4 kinds, capped at 240). After every local step and every sync attempt the flag oracle runs; after every fault-free sync the deregistration and convergence oracles run; each execution ends with the first fault-free full sync. An execution is non-trivial if at least one injected fault fired and the target sync contained a write RPC; distinct by (scenario, fault plan). DEFERRAL FAMILY (defer_test.go; quick 1000 / thorough 24000 PRNG scenarios in 8 shapes, each inside a testing/synctest bubble = virtual time, no faults): a state with CheckUpdateInterval 2s|10s|1m is registered and full-synced, then 1..4 output-only UpdateCheck calls of one check inside one deferral window (sleeps of 2-10% of the interval), optionally with a status change, catalog drift of the check (output/status/notes/removed), remove + re-register of the check, partial/full syncs inside the window, a second window after expiry, updates around the window end (0.45-1.5 x interval apart), or a mixed soup over several checks; the scenario closes with a sleep of 1.6 x interval, SyncChanges, SyncFull. After every successful full sync catalog == local for every check and service; Output alone is not demanded for a check whose last output-only update is younger than 1.5 x interval. A deferral scenario is non-trivial if it made at least one output-only update.")
+		"scenarios = PRNG-built sequences of agent-local operations (add/re-add/update/remove service with its checks, add/re-add/remove check, check status change and output churn with CheckUpdateInterval 0 | 1h (deferral) | 2ms (timer fires)), external catalog drift (foreign service/check added, entries removed, each IsSame-compared field altered — including the catalog's copy of EnableTagOverride flipped in both directions, alone and combined with tags / port / meta drift, also in 24 scripted tag-override scenarios —, node meta / tagged addresses changed) and full/partial syncs, executed on the real agent/local.State against a real state.Store behind the RPCs the agent uses. For each scenario the RPCs of its fault-free target sync are recorded and EVERY call position x 6 failure kinds is replayed from scratch (with and without an immediate partial retry, and as a failure persisting into the following syncs), plus the fallback-read position, plus double faults (quick: 16 sampled position/kind pairs per scenario; thorough: all position pairs x 4x4 kinds, capped at 240). After every local step and every sync attempt the flag oracle runs; after every fault-free sync the deregistration and convergence oracles run; each execution ends with the first fault-free full sync. An execution is non-trivial if at least one injected fault fired and the target sync contained a write RPC; distinct by (scenario, fault plan). DEFERRAL FAMILY (defer_test.go; quick 1000 / thorough 24000 PRNG scenarios in 8 shapes, each inside a testing/synctest bubble = virtual time, no faults): a state with CheckUpdateInterval 2s|10s|1m is registered and full-synced, then 1..4 output-only UpdateCheck calls of one check inside one deferral window (sleeps of 2-10% of the interval), optionally with a status change, catalog drift of the check (output/status/notes/removed), remove + re-register of the check, partial/full syncs inside the window, a second window after expiry, updates around the window end (0.45-1.5 x interval apart), or a mixed soup over several checks; the scenario closes with a sleep of 1.6 x interval, SyncChanges, SyncFull. After every successful full sync catalog == local for every check and service; Output alone is not demanded for a check whose last output-only update is younger than 1.5 x interval. A deferral scenario is non-trivial if it made at least one output-only update.")
 	run.Assume(
 		"the catalog side is the production state.Store driven by EnsureRegistration/DeleteService/DeleteCheck after the same msgpack round trip raft applies; the endpoint's ACL vetting is replaced by injected refusals",
 		"call positions are identified by what the call carries (read:services, register:svc:<id>, deregister:chk:<id>, ...) because the agent walks Go maps: the k-th call differs between executions, the set of positions does not",
@@ -1525,6 +1610,11 @@ func TestZZVerifC16(t *testing.T) {
 		run.Count("case_variant_scenarios")
 	}
 
+	for i, sc := range tagOverrideScenarios() {
+		runScenario(run, sc, rng.Fork(uint64(910000+i)), false)
+		run.Count("tag_override_scenarios")
+	}
+
 	// check-output deferral family (CheckUpdateInterval > 0) in virtual time: defer_test.go
 	runDeferFamily(t, run, rng.Fork(777000))
 
@@ -1536,10 +1626,17 @@ func TestZZVerifC16(t *testing.T) {
 	run.Floor("flag_exempt_acl_refused", core.N(100, 2000))
 	run.Floor("acl_refused_entries_registered_by_next_fault_free_full_sync", core.N(100, 2000))
 	run.Floor("drift_ops", core.N(1000, 20000))
+	run.Floor("drift:enable-tag-override-flag", core.N(300, 3000))
+	run.Floor("drift:enable-tag-override-flag:local-false-catalog-true", core.N(100, 1000))
+	run.Floor("drift:enable-tag-override-flag:local-true-catalog-false", core.N(100, 1000))
+	run.Floor("drift:flag+tags", core.N(200, 2000))
+	run.Floor("drift:flag+tags:on-synced-service:local-false-catalog-true", core.N(60, 600))
+	run.Floor("drift:flag+tags:on-synced-service:local-true-catalog-false", core.N(60, 600))
+	run.Floor("local_registration_unchanged_by_sync_checks", core.N(5000, 100000))
 	run.Floor("output_updates_deferred", core.N(100, 2000))
 	run.Floor("defer_timers_fired", core.N(10, 200))
 	run.FloorDistinct("fault-position-class", 36)
-	run.FloorDistinct("drift", 15)
+	run.FloorDistinct("drift", 20)
 	run.FloorDistinct("local-op", 8)
 	if run.Finish() == 1 {
 		t.Fail()
